@@ -54,7 +54,8 @@ func c19Fields(typ string) []c19Field {
 		return append(common, c19Field{"7", "ok"}, c19Field{"-9223372036854775808", "ok"}, c19Field{"4294967296", "ok"}, c19Field{"9223372036854775808", "bad"}, c19Field{"x1", "bad"},
 			c19Field{"010", "ok"}, c19Field{"-017", "ok"}, c19Field{"0x1F", "bad"}, c19Field{"0b101", "bad"}, c19Field{"1_000", "bad"}, c19Field{"", "bad"})
 	case "boolean":
-		return append(common, c19Field{"1", "ok"}, c19Field{"0", "ok"}, c19Field{"t", "ok"}, c19Field{"f", "ok"}, c19Field{"TRUE", "ok"}, c19Field{"false", "ok"}, c19Field{"x", "bad"}, c19Field{"", "bad"})
+		return append(common, c19Field{"1", "ok"}, c19Field{"0", "ok"}, c19Field{"t", "ok"}, c19Field{"f", "ok"}, c19Field{"TRUE", "ok"}, c19Field{"false", "ok"}, c19Field{"x", "bad"}, c19Field{"", "bad"},
+			c19Field{"2", "bad"}, c19Field{"-1", "bad"}, c19Field{"00", "bad"}, c19Field{"yes", "bad"})
 	}
 	return append(common, c19Field{"text", "ok"}, c19Field{"", "ok"}, c19Field{"has SEP inside", "ok"}, c19Field{"it's; \"quoted\"", "ok"}, c19Field{"1", "ok"}, c19Field{"#tag", "ok"},
 		c19Field{strings.Repeat("L", 500), "bad"}) // converts fine but the row exceeds the 400-byte limit: the INSERT must refuse it
